@@ -26,7 +26,7 @@ theorem serve_v1_never_panics (b : Backend) (s : Store) (l : Bytes) (q : Query) 
     (hb : b ≠ .rdbV2) (hq : Name.unpack q.qname = some ls) :
     serve ⟨b, s, l⟩ q ≠ .panic := by
   have hv2 : View.v2 ⟨b, s, l⟩ = false := by simp [View.v2, hb]
-  apply serve_no_panic_of _ _ _ (Wf.of_unpack hq)
+  apply serve_no_panic_of _ _ Wf (fun _ h => h) (fun _ _ h hn => (h.parent hn).2) _ (Wf.of_unpack hq)
   · intro control h
     rw [hv2] at h
     cases h
@@ -74,25 +74,35 @@ example : serve ⟨.rdbV1, exV1, [120,120]⟩ qA ≠ .panic :=
 
 /-! ### 2. v2 layout: never a panic when the resource-record keys are well formed -/
 
-/-- `V2KeysOk s` (defined in `Proofs/ServeSafety.lean`): for every key `k` of `s` that starts with
-the resource-record marker, the bytes between the marker and the last two bytes of `k` start with a
-well-formed wire name: `(Name.unpack ((k.drop 2).take (k.length - 4))).isSome`. It is decidable and
-implied by the canonical format `marker ++ pack labels ++ loc₂`: -/
+/-- `V2KeysOk s` (defined in `Proofs/ServeSafety.lean`, decidable): every key `k` of `s` that starts
+with the resource-record marker `[0,111]` satisfies one of
+
+* the bytes between the marker and the last two bytes of `k` start with a well-formed wire name,
+  `(Name.unpack ((k.drop 2).take (k.length - 4))).isSome`, or
+* the byte after the marker is 64 or more (the key sorts above every search key of a name whose
+  labels are shorter than 64 bytes, so the search never lands on it). The features key
+  `"\x00o_features"`, present in every compiled v2 database, is of this kind: it carries the
+  marker but is not a resource-record key.
+
+It is implied by the canonical format `marker ++ pack labels ++ loc₂`: -/
 theorem v2KeysOk_of_canonical (s : Store)
     (h : ∀ e ∈ s, e.1.take 2 = Generated.dnsdata_ResourceRecordsKeyMarker →
       ∃ (ls : List Bytes) (loc : Bytes), (∀ l ∈ ls, l ≠ [] ∧ l.length < 256) ∧ loc.length = 2 ∧
         e.1 = Generated.dnsdata_ResourceRecordsKeyMarker ++ Name.pack ls ++ loc) : V2KeysOk s :=
   V2KeysOk_of_canonical s h
 
-/-- v2 key layout: for every store whose resource-record keys are well formed, every location and
-every wire-valid query name, the handler does not panic. (`_partial`: the hypothesis `V2KeysOk`
-cannot be dropped, see `serve_v2_can_panic_on_malformed_store`.) -/
+/-- v2 key layout: for every store whose marker-carrying keys are as above, every location and
+every query name that is a well-formed packed name with labels shorter than 64 bytes (RFC 1035
+§2.3.4, enforced by miekg's unpacking), the handler does not panic. `_partial`: neither
+hypothesis can be dropped, see `serve_v2_can_panic_on_malformed_store` and
+`serve_v2_can_panic_on_overlong_label`. -/
 theorem serve_v2_never_panics_partial (s : Store) (l : Bytes) (q : Query) (ls : List Bytes)
-    (hs : V2KeysOk s) (hq : Name.unpack q.qname = some ls) :
+    (hs : V2KeysOk s) (hq : Name.unpack q.qname = some ls) (h63 : ∀ lab ∈ ls, lab.length < 64) :
     serve ⟨.rdbV2, s, l⟩ q ≠ .panic := by
-  apply serve_no_panic_of _ _ _ (Wf.of_unpack hq)
+  apply serve_no_panic_of _ _ Wf63 (fun _ h => h.wf) (fun _ _ h hn => h.parent hn) _
+    (Wf63.of_unpack hq h63)
   · intro control _
-    exact findAnswerV2_no_panic _ hs _ _ _ _ (Wf.of_unpack hq)
+    exact findAnswerV2_no_panic _ hs _ _ _ _ (Wf63.of_unpack hq h63)
   · intro z hz
     have hv2 : View.v2 ⟨.rdbV2, s, l⟩ = true := by simp [View.v2]
     unfold isAuthoritative
@@ -100,14 +110,19 @@ theorem serve_v2_never_panics_partial (s : Store) (l : Bytes) (q : Query) (ls : 
     exact isAuthoritativeV2_good _ hs z hz
 
 /-- the pieces, for any client of the closest-key search: `findGo` started inside the name
-(`1 ≤ qLength ≤ |rev| + 1`) on a store with well-formed keys ends with `.ok` — never `.panic`,
-never `.err` — whatever the three callbacks do. -/
-theorem findGo_never_panics {σ : Type} (v : View) (q rev : Bytes)
+(`1 ≤ qLength ≤ |rev| + 1`) on such a store ends with `.ok` — never `.panic`, never `.err` —
+whatever the three callbacks do. -/
+theorem findGo_never_panics {σ : Type} (v : View) (q : Bytes) (ls : List Bytes)
     (pre : Nat → σ → Option σ) (onRows : List Bytes → σ → σ) (post : σ → σ × Bool)
-    (hs : V2KeysOk v.store) (hrev : Name.reverseWire q = some rev)
-    (fuel qLength : Nat) (st : σ) (h1 : 1 ≤ qLength) (h2 : qLength ≤ rev.length + 1) :
-    ∃ st', findGo v rev pre onRows post fuel qLength st = .ok st' := by
-  obtain ⟨st', h, _⟩ := findGo_ok v rev pre onRows post (fun _ => True) hs (reverseWire_exact hrev)
+    (hs : V2KeysOk v.store) (hq : Name.unpack q = some ls) (h63 : ∀ lab ∈ ls, lab.length < 64)
+    (fuel qLength : Nat) (st : σ) (h1 : 1 ≤ qLength) (h2 : qLength ≤ (Name.pack ls.reverse).length + 1) :
+    Name.reverseWire q = some (Name.pack ls.reverse) ∧
+    ∃ st', findGo v (Name.pack ls.reverse) pre onRows post fuel qLength st = .ok st' := by
+  have hrev : Name.reverseWire q = some (Name.pack ls.reverse) := by
+    unfold Name.reverseWire; rw [hq]; rfl
+  refine ⟨hrev, ?_⟩
+  obtain ⟨st', h, _⟩ := findGo_ok v _ pre onRows post (fun _ => True) hs (reverseWire_exact hrev)
+    (headOk_pack _ (fun l hl => h63 l (List.mem_reverse.mp hl)))
     (fun _ _ _ _ _ => trivial) (fun _ _ _ => trivial) (fun _ _ => trivial) fuel qLength st h1 h2
     (Or.inl trivial)
   exact ⟨st', h⟩
@@ -115,12 +130,15 @@ theorem findGo_never_panics {σ : Type} (v : View) (q rev : Bytes)
 /-- the same zone in the v2 layout -/
 def exV2 : Store :=
   [([0,111,1,98,0,0,0], [nsRow, soaRow]), ([0,111,1,98,1,97,0,0,0], [aRow 1]),
-   ([0,111,1,98,1,97,0,120,120], [aRow 2]), ([0,111,1,98,1,97,0,121,121], [aRow 3])]
+   ([0,111,1,98,1,97,0,120,120], [aRow 2]), ([0,111,1,98,1,97,0,121,121], [aRow 3]),
+   (Generated.dnsdata_FeaturesKey, [[2,0,0,0]])]
 
 example : V2KeysOk exV2 := by unfold V2KeysOk; decide
 example : serve ⟨.rdbV2, exV2, [120,120]⟩ qA = .reply replyA := by decide +kernel
 example : serve ⟨.rdbV2, exV2, [120,120]⟩ qNx = .reply replyNx := by decide +kernel
 example : serve ⟨.rdbV2, exV2, [0,0]⟩ qRef = .reply replyRefused := by decide +kernel
+example : serve ⟨.rdbV2, exV2, [120,120]⟩ qA ≠ .panic :=
+  serve_v2_never_panics_partial _ _ _ [[97], [98]] (by unfold V2KeysOk; decide) (by decide) (by decide)
 
 /-- Why the hypothesis is there: a store holding the bare marker `[0,111]` as a key (no name, no
 location — nothing the compiler produces) and a delegation `a.b.` (NS only). A DS query for
@@ -134,6 +152,23 @@ theorem serve_v2_can_panic_on_malformed_store :
   decide +kernel
 
 example : ¬ V2KeysOk badV2 := by unfold V2KeysOk; decide
+
+/-- Why labels must be shorter than 64 bytes: the features key `"\x00o_features"` carries the
+resource-record marker, and its byte after the marker is `'_'` = 95. A name whose top-level label
+is 95 bytes long and begins with `featur` makes the search land on the features key and compare
+label bytes beyond its end (`findCommonLongestPrefix` indexes out of range). Such a name cannot
+arrive from the wire (labels are at most 63 bytes), so this is not reachable in the server; it
+shows that the 63-byte limit is what keeps the features key out of the search. -/
+def longLabel : Bytes := [102,101,97,116,117,114,122] ++ List.replicate 88 97
+def qLong : Bytes := [1,97] ++ [95] ++ longLabel ++ [0]
+def featStore : Store :=
+  [(Generated.dnsdata_FeaturesKey, [[2,0,0,0]]),
+   ([0,111] ++ [95] ++ longLabel ++ [1,97,0] ++ [0,0], [nsRow])]
+
+theorem serve_v2_can_panic_on_overlong_label :
+    V2KeysOk featStore ∧ (Name.unpack qLong).isSome = true ∧
+    serve ⟨.rdbV2, featStore, [0,0]⟩ (mkQ qLong 43) = .panic := by
+  refine ⟨by unfold V2KeysOk; decide, by decide +kernel, by decide +kernel⟩
 
 /-! ### 3. shape of replies -/
 
